@@ -184,6 +184,10 @@ func c19Sequences(c *Ctx, r *Rng) {
 		go func(i int, rs *Rng) {
 			defer wg.Done()
 			defer func() { <-sem }()
+			if i%4 == 3 {
+				c19SubdirSequence(c, i, rs)
+				return
+			}
 			c19Sequence(c, i, rs, func(line, impl, cas string) {
 				mu.Lock()
 				ml, mi, mc = append(ml, line), append(mi, impl), append(mc, cas)
@@ -787,3 +791,92 @@ func sameModuloSpace(a, b string) bool {
 }
 
 func init() { campaigns["C19"] = c19 }
+
+// c19SubdirSequence: track sequences run INSIDE a sub-directory, where `/name` (the file of that name in this
+// directory) and `name` (the files of that name anywhere below it) are different patterns although the known
+// pattern list spells both `sub/name` (D79).  Judged by `git check-attr` against hand-quoted reference lines.
+func c19SubdirSequence(c *Ctx, i int, r *Rng) {
+	dir := filepath.Join(c.Work, fmt.Sprintf("c19d-%d", i))
+	spec := filepath.Join(c.Work, fmt.Sprintf("c19d-%d-spec", i))
+	defer os.RemoveAll(dir)
+	defer os.RemoveAll(spec)
+	if gitInit(dir) != nil || gitInit(spec) != nil {
+		return
+	}
+	os.MkdirAll(filepath.Join(dir, "sub", "deep"), 0o755)
+	os.MkdirAll(filepath.Join(spec, "sub"), 0o755)
+	cfgFile := filepath.Join(c.Work, fmt.Sprintf("c19d-%d.gitconfig", i))
+	defer os.Remove(cfgFile)
+	os.WriteFile(cfgFile, []byte("[user]\n\tname = v\n\temail = v@example.invalid\n"), 0o644)
+	env := []string{"GIT_CONFIG_GLOBAL=" + cfgFile, "GIT_LFS_TRACK_NO_INSTALL_HOOKS=1", "PATH=" + filepath.Dir(c.Lfs) + ":" + os.Getenv("PATH")}
+	pats := []string{"/data.bin", "data.bin", "*.bin", "/*.bin", "deep/data.bin"}
+	probes := []string{"sub/data.bin", "sub/deep/data.bin", "sub/x.bin", "sub/deep/x.bin", "sub/deep/deep/data.bin", "data.bin"}
+	type st struct{ lockable bool }
+	active := map[string]*st{}
+	var order, steps []string
+	n := 2 + r.Intn(4)
+	for k := 0; k < n; k++ {
+		p := Pick(r, pats)
+		if k == 1 && r.Chance(50) { // the other spelling of the first step's name
+			if strings.HasPrefix(steps[0][strings.LastIndex(steps[0], " ")+1:], "/") {
+				p = strings.TrimPrefix(steps[0][strings.LastIndex(steps[0], " ")+1:], "/")
+			} else if q := steps[0][strings.LastIndex(steps[0], " ")+1:]; !strings.Contains(q, "/") {
+				p = "/" + q
+			}
+		}
+		args := []string{"track", p}
+		switch r.Intn(4) {
+		case 0:
+			args = []string{"track", "--lockable", p}
+			if a, ok := active[p]; ok {
+				a.lockable = true
+			} else {
+				active[p] = &st{true}
+				order = append(order, p)
+			}
+		case 1:
+			args = []string{"track", "--not-lockable", p}
+			if a, ok := active[p]; ok {
+				a.lockable = false
+			} else {
+				active[p] = &st{false}
+				order = append(order, p)
+			}
+		default:
+			if _, ok := active[p]; !ok {
+				active[p] = &st{false}
+				order = append(order, p)
+			}
+		}
+		out, code := runIn(filepath.Join(dir, "sub"), env, c.Lfs, args...)
+		steps = append(steps, strings.Join(args, " "))
+		enc := fmt.Sprintf("C19 subdir-seq seed=%d idx=%d (in sub/) steps=%s", c.Seed, i, strings.Join(steps, " ; "))
+		c.R.Eval(enc, true)
+		c.R.Count("subdir-seq.step")
+		if code != 0 {
+			c.R.Add(Finding{Kind: "oracle", What: "`git lfs track` failed on a plain pattern in a sub-directory", Case: enc, Impl: clip(out, 200)})
+			return
+		}
+		var sb strings.Builder
+		for _, o := range order {
+			sb.WriteString("\"" + o + "\" filter=lfs diff=lfs merge=lfs -text")
+			if active[o].lockable {
+				sb.WriteString(" lockable")
+			}
+			sb.WriteString("\n")
+		}
+		os.WriteFile(filepath.Join(spec, "sub", ".gitattributes"), []byte(sb.String()), 0o644)
+		for _, attr := range []string{"filter", "lockable"} {
+			want := checkAttrOf(spec, attr, probes)
+			got := checkAttrOf(dir, attr, probes)
+			for _, q := range probes {
+				if want[q] != got[q] {
+					written, _ := os.ReadFile(filepath.Join(dir, "sub", ".gitattributes"))
+					c.R.Add(Finding{Kind: "oracle", What: "after track operations run in a sub-directory Git's attribute lookup differs from what the requested patterns denote", Case: enc,
+						Impl: fmt.Sprintf("%s of %q: got %q want %q | written=%q | %s", attr, q, got[q], want[q], string(written), strings.TrimSpace(out))})
+					return
+				}
+			}
+		}
+	}
+}
